@@ -140,15 +140,41 @@ func genGate(r *lib.Rng, tier string) Case {
 }
 
 func genTick(r *lib.Rng) Case {
-	// real ticker with a short period: one chunk in flight at a time (see design.d/C07.md)
+	// real ticker with a short period.  The writer thread writes only while the consumer is parked in the
+	// underlying writer or has nothing left to do, so the sequence of underlying writes does not depend
+	// on when the ticks land (see design.d/C07.md).
 	c := Case{Kind: "gate", Tick: true, Bsize: 4096, Cap: r.Range(1, 4)}
 	start := r.Intn(256)
-	for i, n := 0, r.Range(2, 5); i < n; i++ {
-		sz := r.Pick([]int{0, 1, 100, 4095, 4096, 4097, 8193, 5000})
-		c.Ops = append(c.Ops, GOp{Op: "W", N: sz, S: start}, GOp{Op: "D"})
+	wr := func(sizes []int) {
+		sz := r.Pick(sizes)
+		c.Ops = append(c.Ops, GOp{Op: "W", N: sz, S: start})
 		start = (start + sz + 3) % 256
-		if r.Chance(1, 4) {
-			c.Ops = append(c.Ops, GOp{Op: "F"}, GOp{Op: "D"})
+	}
+	closed := false
+	for i, n := 0, r.Range(2, 5); i < n && !closed; i++ {
+		// one chunk; the periodic flush (or, for a chunk larger than the buffer, the write itself) parks the consumer
+		wr([]int{1, 100, 4095, 4096, 4097, 8193, 5000})
+		switch r.Intn(4) {
+		case 0:
+			c.Ops = append(c.Ops, GOp{Op: "D"})
+		case 1:
+			c.Ops = append(c.Ops, GOp{Op: "D"}, GOp{Op: "F"}, GOp{Op: "D"})
+		default:
+			// while the disk holds that write: more Writes are accepted, then Flush (or Close) is called;
+			// it must wait for the disk and cover those Writes
+			for k, nk := 0, r.Range(1, c.Cap+1); k < nk; k++ {
+				wr([]int{0, 1, 7, 100, 2000, 4096, 4200})
+			}
+			if r.Chance(1, 4) {
+				c.Ops = append(c.Ops, GOp{Op: "C"})
+				closed = true
+			} else {
+				c.Ops = append(c.Ops, GOp{Op: "F"})
+			}
+			for k, nk := 0, r.Range(0, 2); k < nk; k++ {
+				c.Ops = append(c.Ops, GOp{Op: "R"})
+			}
+			c.Ops = append(c.Ops, GOp{Op: "D"})
 		}
 	}
 	return c
@@ -260,7 +286,9 @@ func corpus() []Case {
 		// documented misuse
 		{Kind: "gate", Cap: 2, Bsize: 8, Ops: []GOp{w(3, 0), op("C"), op("D"), op("F")}},
 		{Kind: "gate", Cap: 2, Bsize: 8, Ops: []GOp{w(3, 0), op("C"), op("D"), w(1, 1), w(1, 2), w(1, 3), op("C")}},
-		// periodic flush
+		// periodic flush; Writes, then Flush / Close, while the disk holds the write of a periodic flush
+		{Kind: "gate", Cap: 3, Bsize: 4096, Tick: true, Ops: []GOp{w(10, 0), w(5, 20), w(7, 40), op("F"), op("R"), op("R"), op("D"), w(20, 60), w(3, 90), op("C"), op("D")}},
+		{Kind: "gate", Cap: 2, Bsize: 4096, Tick: true, Ops: []GOp{w(100, 0), w(4096, 20), w(1, 40), w(1, 50), op("F"), op("D"), w(1, 60), op("D")}},
 		{Kind: "gate", Cap: 2, Bsize: 4096, Tick: true, Ops: []GOp{w(10, 0), op("D"), w(4097, 3), op("D"), op("F"), op("D")}},
 		// the defect witnesses on the real writers: reader stalled, burst past the queue capacity
 	}
@@ -289,7 +317,7 @@ func pipeCorpus() []Case {
 
 func gen(seed uint64, tier string) []interface{} {
 	r := lib.NewRng(seed)
-	ngate, ntick, npipe := 120, 6, 3
+	ngate, ntick, npipe := 120, 10, 3
 	if tier == "thorough" {
 		ngate, ntick, npipe = 2000, 40, 27
 	}
